@@ -54,8 +54,26 @@ def ser_cb(cb):
     return ["1", str(len(cb))] + [b01(x) for x in cb]
 
 
-def ser_call(c, endpoints, for_model):
+def full_blocks(chunks):
+    """the chunks are what a std::istream read in 8192-byte blocks yields: full blocks, then a shorter non-empty rest"""
+    return all(len(x) == 8192 for x in chunks[:-1]) and (not chunks or 0 < len(chunks[-1]) <= 8192)
+
+
+def ser_call(c, endpoints, for_model, idx=None):
     k = c[0]
+    if k == "W":
+        # the driver sleeps c[1] milliseconds; for the model: a call that changes nothing
+        return ["M", c[2]] if for_model else ["W", str(c[1])]
+    if k == "Z":
+        # interval signals on / off in the driver process; for the model: a call that changes nothing
+        return ["M", c[2]] if for_model else ["Z", b01(c[1])]
+    if not for_model and idx is not None and idx % 3 == 1:
+        # every third call that can: through the public stream adapters (ftp::istream_adapter over a std::istream holding
+        # the whole source, ftp::ostream_adapter over a std::ostream) instead of the driver's own stream classes
+        if k == "D" and c[3] is None:
+            return ["Da"] + ser_call(c, endpoints, for_model)[1:]
+        if k == "U" and full_blocks(c[3]):
+            return ["Ua"] + ser_call(c, endpoints, for_model)[1:]
     if k == "C":
         if c[1] == "unresolvable":
             # a host name that cannot be resolved (not in the model: the scenario ends the comparison here, see skip_corr_from)
@@ -112,8 +130,8 @@ def ser_call(c, endpoints, for_model):
 def driver_line(scn, endpoints):
     c = scn["cfg"]
     out = [c["mode"], b01(c["rfc"]), c["type"], b01(c["tls"]), b01(c["resume"]), c["tlsver"], c["verify"], str(len(scn["calls"]))]
-    for call in scn["calls"]:
-        out += ser_call(call, endpoints, False)
+    for idx, call in enumerate(scn["calls"]):
+        out += ser_call(call, endpoints, False, idx)
     return " ".join(out)
 
 
